@@ -5,6 +5,7 @@ report / signal is a Crash event, a call over its budget a Hang event, both unex
 import json
 import os
 import re
+import resource
 import subprocess
 from concurrent.futures import ThreadPoolExecutor
 
@@ -19,6 +20,16 @@ SAN_ENV = {
     "ASAN_OPTIONS": "abort_on_error=1:detect_leaks=0:max_allocation_size_mb=1024:hard_rss_limit_mb=6144:handle_abort=0",
     "UBSAN_OPTIONS": "abort_on_error=1:print_stacktrace=1",
 }
+
+
+def _big_stack():
+    # frames of the sanitizer build are several times larger than those of a normal build: recursion that is
+    # linear in the input length (formula parser, nested descriptions) must not be reported for 4 KiB inputs
+    soft, hard = resource.getrlimit(resource.RLIMIT_STACK)
+    want = 512 * 1024 * 1024
+    if hard != resource.RLIM_INFINITY:
+        want = min(want, hard)
+    resource.setrlimit(resource.RLIMIT_STACK, (want, hard))
 
 
 def _entries(exe):
@@ -61,7 +72,7 @@ def _run_batch(exe, wd, entry, batch, budget, n, call_ms, avoid=False, probe=Non
         env.update(SAN_ENV)
         env["VERIF_CALL_BUDGET_MS"] = str(call_ms)
         try:
-            pr = subprocess.run(cmd, stdout=subprocess.PIPE, stderr=subprocess.PIPE, env=env, timeout=3000)
+            pr = subprocess.run(cmd, stdout=subprocess.PIPE, stderr=subprocess.PIPE, env=env, timeout=3000, preexec_fn=_big_stack)
         except subprocess.TimeoutExpired:
             raise vc.MachineryError("driver timed out on %s/%s" % (entry, batch))
         err = pr.stderr.decode("utf-8", "replace")
@@ -188,8 +199,8 @@ def run(tier, seed):
     # 2. sanitizer build, one process per entry point and batch
     exe = vc.build_driver("drv_textfuzz", link_lib=True, sanitize=True)
     entries = _entries(exe)
-    budget = 2500 if quick else 120000
-    nseed = 80 if quick else 3600
+    budget = 2500 if quick else 300000
+    nseed = 80 if quick else 8000
     call_ms = 5000 if quick else 20000
     # known findings (findings.d/C16.json): their triggers are steered around in the main batches and each is
     # reproduced by one dedicated probe call
@@ -243,6 +254,7 @@ def run(tier, seed):
                "is a call whose outcome the specification constrains") % (budget, nseed, call_ms)
     ck.assumptions = ["TLC 2.x; CommunityModules Json/IOUtils", "g++ 12 AddressSanitizer + UndefinedBehaviorSanitizer; allocations above 1 GiB are reported",
                       "harness/drv_textfuzz.cpp consumes results the way a caller would (strings are copied and read)",
+                      "driver processes run with a 512 MiB stack (sanitizer frames are several times larger than normal ones), so recursion linear in a 4 KiB input is not reported",
                       "no coverage feedback: plain enumeration and seeded mutation (reduced form of the property)"]
     for p in files:
         for q in [p] + [p + ".rest%d" % k for k in range(1, 41)]:
